@@ -244,6 +244,9 @@ Proof.
   - (* AFail *)
     destruct ((stmt_eqb s SComplete && (wf x <? wb x)) || (is_meta s && mw x)); [|discriminate]. inversion H; subst g'; clear H.
     eapply Inv_change; eauto; cbn [pc waiting wn wb wf mw st]; unfold passed, arrived in *; cbn [pc waiting]; fin Ib Ic Id If Hx.
+  - (* ATimeout *) destruct s; try discriminate. destruct (waiting x) eqn:Hw; [|discriminate]. inversion H; subst g'; clear H.
+    eapply Inv_change; eauto; cbn [pc waiting wn wb wf mw st]; unfold passed, arrived in *; cbn [pc waiting]; try rewrite Hw;
+      fin Ib Ic Id If Hx.
 Qed.
 
 Lemma Inv_init ns : Inv (init ns).
@@ -391,4 +394,83 @@ Lemma dead_rank_frozen_run prog evs : forall g r,
 Proof.
   induction evs as [|e evs IH]; intros g r Hd; cbn [fold_left]; [reflexivity|].
   rewrite IH; [apply dead_rank_frozen; exact Hd|]. rewrite dead_rank_frozen by exact Hd. exact Hd.
+Qed.
+
+(* ------------------------------------------------------------------ a storage failure is final for everybody (C03) *)
+Lemma run_app prog ns evs1 evs2 :
+  run prog ns (evs1 ++ evs2) = fold_left (step prog) evs2 (run prog ns evs1).
+Proof. unfold run. apply fold_left_app. Qed.
+
+Section Final.
+Variable prog : list stmt.
+Variables c b1 m b2 : nat.
+Hypothesis Hpos : positions_ok prog c b1 m b2 = true.
+
+(* Once a storage operation of some rank has failed (payload or metadata write), no rank returns normally in any
+   continuation of the run - with or without timeouts: the failed rank never arrives at the last barrier, so nobody
+   passes it; ranks blocked there can only give up (ATimeout) and raise. *)
+Theorem failure_means_nobody_returns ns evs1 r evs2 g' :
+  act prog (run prog ns evs1) r AFail = Some g' ->
+  forall x, In x (ranks (run prog ns (evs1 ++ (r, AFail) :: evs2))) -> returned x = false.
+Proof.
+  intros Hact x Hx. destruct (returned x) eqn:Hret; [exfalso|reflexivity].
+  destruct (pos_facts prog c b1 m b2 Hpos) as (Hcb & Hbm & Hmb & Hc & Hb1 & Hm & Hb2 & _ & _).
+  set (g1 := run prog ns evs1) in *.
+  pose proof (Inv_run prog c b1 m b2 Hpos ns evs1) as HI1. fold g1 in HI1.
+  pose proof HI1 as (_ & Ib1 & _ & _ & _ & _).
+  (* the failing rank at the moment of the failure *)
+  pose proof Hact as Hact0. unfold act in Hact.
+  destruct (r <? length (ranks g1)) eqn:Hr; cbn [negb] in Hact; [|discriminate]. apply Nat.ltb_lt in Hr.
+  set (xr := nth r (ranks g1) dflt) in *.
+  assert (Hxr : nth_error (ranks g1) r = Some xr) by (apply nth_error_nth; exact Hr).
+  assert (Hxrin : In xr (ranks g1)) by (eapply nth_error_In; eauto).
+  destruct (st xr) eqn:Hst; try discriminate.
+  destruct (nth_error prog (pc xr)) as [s|] eqn:Hcur; [|discriminate].
+  destruct ((stmt_eqb s SComplete && (wf xr <? wb xr)) || (is_meta s && mw xr)) eqn:Hg; [|discriminate].
+  inversion Hact; subst g'; clear Hact.
+  assert (Hnb : s <> SBarrier).
+  { intros ->. cbn in Hg. discriminate. }
+  assert (Hw : waiting xr = false).
+  { destruct (waiting xr) eqn:W; [|reflexivity]. rewrite (Ib1 xr Hxrin W) in Hcur. inversion Hcur; congruence. }
+  assert (Hpc : pc xr <= m).
+  { apply orb_prop in Hg. destruct Hg as [Hg|Hg]; apply andb_prop in Hg; destruct Hg as [Hs _].
+    - destruct s; try discriminate. rewrite (only_complete_at_c prog c b1 m b2 Hpos _ Hcur). lia.
+    - destruct (only_meta_at_m prog c b1 m b2 Hpos _ _ Hcur Hs) as [-> _]. lia. }
+  (* the final state *)
+  rewrite run_app in Hx. cbn [fold_left] in Hx. fold g1 in Hx. unfold step at 2 in Hx. cbn [fst snd] in Hx.
+  rewrite Hact0 in Hx.
+  set (z := {| pc := pc xr; waiting := waiting xr; wn := wn xr; wb := wb xr; wf := wf xr; mw := mw xr; st := RRaised |}) in *.
+  set (g' := {| ranks := upd r z (ranks g1); meta := meta g1 |}) in *.
+  set (gf := fold_left (step prog) evs2 g') in *.
+  assert (Hz0 : nth r (ranks g') dflt = z) by (unfold g'; cbn [ranks]; apply nth_upd_same; exact Hr).
+  assert (Hzf : nth r (ranks gf) dflt = z).
+  { unfold gf. rewrite dead_rank_frozen_run; [exact Hz0|]. rewrite Hz0. cbn. discriminate. }
+  assert (Hzin : In z (ranks gf)).
+  { destruct (le_lt_dec (length (ranks gf)) r) as [L|L].
+    - rewrite nth_overflow in Hzf by exact L. unfold dflt, z in Hzf. discriminate.
+    - rewrite <- Hzf. apply nth_In. exact L. }
+  assert (HIf : Inv prog c m gf).
+  { pose proof (Inv_run prog c b1 m b2 Hpos ns (evs1 ++ (r, AFail) :: evs2)) as H.
+    rewrite run_app in H. cbn [fold_left] in H. fold g1 in H. unfold step at 2 in H. cbn [fst snd] in H.
+    rewrite Hact0 in H. exact H. }
+  destruct HIf as (Ia & _).
+  specialize (Ia x z Hx Hzin). unfold passed, arrived in Ia. unfold z in Ia at 1 2. cbn [pc waiting] in Ia. rewrite Hw in Ia.
+  assert (Hend : length prog <= pc x).
+  { pose proof (returned_at_end prog ns (evs1 ++ (r, AFail) :: evs2) x) as H.
+    rewrite run_app in H. cbn [fold_left] in H. fold g1 in H. unfold step at 2 in H. cbn [fst snd] in H.
+    rewrite Hact0 in H. apply H; assumption. }
+  assert (Hb2len : b2 < length prog) by (apply nth_error_Some; congruence).
+  pose proof (nb_mono prog (S b2) (pc x) ltac:(lia)) as M1. rewrite (nb_S_barrier prog b2 Hb2) in M1.
+  pose proof (nb_mono prog (pc xr) b2 ltac:(lia)) as M2. lia.
+Qed.
+End Final.
+
+(* a rank that gives up in a barrier raises *)
+Lemma timeout_raises prog g r g' : act prog g r ATimeout = Some g' -> raised (nth r (ranks g') dflt) = true.
+Proof.
+  unfold act. destruct (r <? length (ranks g)) eqn:Hr; cbn [negb]; [|discriminate]. apply Nat.ltb_lt in Hr.
+  destruct (st (nth r (ranks g) dflt)); try discriminate.
+  destruct (nth_error prog (pc (nth r (ranks g) dflt))) as [s|]; [|discriminate].
+  destruct s; try discriminate.
+  destruct (waiting _); [|discriminate]. intros H. inversion H; subst. cbn [ranks]. rewrite nth_upd_same by exact Hr. reflexivity.
 Qed.
